@@ -112,7 +112,7 @@ def run(ctx):
         # optimizer with the documented settings: algorithm by derivative class, the parent's ftol_rel / xtol_rel, the global maxeval
         pe, pf = [], []
         for nm in ("NLOPT_LN_AUGLAG", "NLOPT_LD_AUGLAG", "NLOPT_LN_AUGLAG_EQ", "NLOPT_LD_AUGLAG_EQ", "NLOPT_GN_MLSL", "NLOPT_GD_MLSL", "NLOPT_GN_MLSL_LDS", "NLOPT_GD_MLSL_LDS"):
-            for _ in range(12 if ctx.thorough else 4):
+            for _ in range(16 if ctx.thorough else 6):
                 p = problems.gen_problem(rng, A, alg_name=nm, with_constraints=(("AUGLAG" in nm) and rng.random() < 0.7), maxeval=rng.choice([40, 120, 300]))
                 for k in ("xtol_abs", "xw", "local", "pop", "maxtime", "clockq", "clock0"):
                     p.pop(k, None)
@@ -120,9 +120,16 @@ def run(ctx):
                 gn = rng.choice(["NLOPT_LN_COBYLA", "NLOPT_LN_NELDERMEAD", "NLOPT_LN_SBPLX"])
                 gm = rng.choice([-1, 7, 25])
                 deriv = "_LD_" in nm or "_GD_" in nm
+                eff_d, eff_n = gd, gn
+                if "MLSL" in nm and rng.random() < 0.4:
+                    # the legacy default is itself an MLSL variant: MLSL must not call itself, the documented fallback is
+                    # COBYLA (derivative-free parents) / MMA (gradient-based parents)
+                    gd = rng.choice(["NLOPT_GD_MLSL", "NLOPT_GD_MLSL_LDS", "NLOPT_GN_MLSL"])
+                    gn = rng.choice(["NLOPT_GN_MLSL", "NLOPT_GN_MLSL_LDS", "NLOPT_GD_MLSL_LDS"])
+                    eff_d, eff_n = "NLOPT_LD_MMA", "NLOPT_LN_COBYLA"
                 q = dict(p)
                 p["glocal"] = "%d:%d:%d" % (A.id(gd), A.id(gn), gm)
-                q["local"] = "%d:%d:%x:%x" % (A.id(gd if deriv else gn), gm, int(hexd(p.get("ftol_rel", 0.0)), 16), int(hexd(p.get("xtol_rel", 0.0)), 16))
+                q["local"] = "%d:%d:%x:%x" % (A.id(eff_d if deriv else eff_n), gm, int(hexd(p.get("ftol_rel", 0.0)), 16), int(hexd(p.get("xtol_rel", 0.0)), 16))
                 pe.append(p)
                 pf.append(q)
         be = runcheck.run_batch(ctx, bdir, A, pe, [], "default local optimizer from the legacy globals", replay=False, blame_crash=False)
